@@ -7,6 +7,9 @@ import FP.Proofs.ErrExampleOpt
 import FP.Proofs.KLAEC
 import FP.Proofs.KLAECComplete
 import FP.Proofs.KLAECExample
+import FP.Spec.ErrGiven
+import FP.Proofs.KLAEGiven
+import FP.Proofs.KLAEGivenExample
 /-!
 # C07 — k-Least-Absolute-Errors returns a true optimum with a consistent objective  (DAG model)
 
@@ -387,6 +390,185 @@ example := klaec_opt_tight CycleWitness.inp _ CycleWitness.base_wf (by decide)
 /-- the decoded family of the concrete satisfying assignment is within the caps -/
 example := klaec_decoded_within_caps CycleWitness.inp _ CycleWitness.base_wf rfl rfl
   CycleWitness.laec_sat_checked
+
+
+/-! ## the given-weights branch (`solution_weights_superset`)
+
+`klaeGivenLP inp ws original_k` is the LP that `kLeastAbsErrors.__init__` hands to the solver when
+`solution_weights_superset = ws` is given (`_encode_leastabserrors_decomposition_with_given_weights` +
+`_encode_objective`; K2 LP-dump equality). The constructor sets `k = len(ws)` and allows empty paths:
+`inp.forGiven ws`; the theorems hold for every `inp` (for `inp.forGiven ws` in particular).
+Vocabulary (`FP/Spec/ErrGiven.lean`): `givenW ws i` — the `i`-th given number, the weight of layer `i`;
+`usedCount k P` — the number of non-empty layers; a *choice* `P` of the given weights by index
+(`P i = []`: the `i`-th number is not used); `LAE.GivenChoice inp original_k P` — every layer is the empty
+path or a route, at most `original_k` layers used; `LAE.GivenBounded inp ws original_k P` — … and every
+per-edge error `|f(e) − Σ_{i used} ws[i][e ∈ P i]| ≤ w_max = max(k·weight_type(max f), max ws)`, the bound of
+the error columns. -/
+
+/-- **(a) soundness, given weights.** For every satisfying assignment of the given-weights LP on a
+well-formed user DAG: every layer decodes to the empty path or a route (`GivenChoice.routes`), at most
+`original_k` layers are non-empty (`GivenChoice.cap`, the row `max_paths_original_k_paths`); the non-empty
+ones are routes of the *user's* graph; the edge columns are the route indicators; with layer `i` carrying
+the `i`-th given number, `|f(e) − Σ_{i used} ws[i][e ∈ p_i]| ≤ ee(e) ≤ w_max` on every non-ignored edge
+(`ee` integral for `weight_type = int`); the solver's objective is `Σ_e scale(e)·ee(e)`. -/
+theorem klae_given_sound (inp : ErrInput) (ws : List Rat) (originalK : Nat) (a : Asg)
+    (h : BaseWF inp.fi.base) (hac : Acyclic inp.fi.base)
+    (hsat : Sat a (klaeGivenLP inp ws originalK)) :
+    ∃ ps : List (List Node),
+      decodePaths inp.st (fun e i => a (edgeVar e i)) inp.k = some ps ∧ ps.length = inp.k ∧
+      GivenChoice inp originalK (fun i => ps.getD i []) ∧
+      (∀ i, i < inp.k → ps.getD i [] ≠ [] →
+        ValidRoute inp.fi.base inp.fi.starts inp.fi.ends (ps.getD i []) ∧ (ps.getD i []).Nodup) ∧
+      (∀ i, i < inp.k → ∀ e ∈ inp.st.g.edges, a (edgeVar e i) = trav inp.st (ps.getD i []) e) ∧
+      (∀ e ∈ inp.basicEdges,
+        absErr inp (fun i => ps.getD i []) (givenW ws) e ≤ a (eeVar e) ∧
+        a (eeVar e) ≤ inp.wmax (some ws) ∧ (inp.fi.weightInt = true → IsInt (a (eeVar e)))) ∧
+      evalTerms a (klaeGivenLP inp ws originalK).obj
+        = (inp.basicEdges.map fun e => inp.scale e * a (eeVar e)).sum :=
+  FP.klae_given_sound inp ws originalK a h hac hsat
+
+/-- **(b) completeness, given weights.** Every choice of at most `original_k` of the given weights (by
+index) with routes whose errors are at most `w_max` (the `ee` column bound) extends to a satisfying
+assignment with `ee(e) = |f(e) − Σ…|` and objective `Σ scale(e)·|f(e) − Σ…|`. Scope as for `klae_complete`
+(no subpath constraints, unit lengths); `hfint`: with `weight_type = int` the error columns are integer
+columns, so the flow values and the given numbers have to be integers. -/
+theorem klae_given_complete (inp : ErrInput) (ws : List Rat) (originalK : Nat) (P : Nat → List Node)
+    (h : BaseWF inp.fi.base) (hac : Acyclic inp.fi.base)
+    (hcons : inp.fi.cfg.constraints = []) (hlen : inp.fi.cfg.lengths = none)
+    (hfint : inp.fi.weightInt = true →
+      (∀ e ∈ inp.basicEdges, IsInt (inp.fi.f e)) ∧ ∀ i, i < inp.k → IsInt (givenW ws i))
+    (hb : GivenBounded inp ws originalK P) :
+    ∃ a : Asg, Sat a (klaeGivenLP inp ws originalK) ∧
+      (∀ i, i < inp.k → ∀ e ∈ inp.st.g.edges, a (edgeVar e i) = trav inp.st (P i) e) ∧
+      (∀ e ∈ inp.basicEdges, a (eeVar e) = absErr inp P (givenW ws) e) ∧
+      evalTerms a (klaeGivenLP inp ws originalK).obj = totalErr inp P (givenW ws) :=
+  FP.klae_given_complete inp ws originalK P h hac hcons hlen hfint hb
+
+/-- **(c) optimum transfer, given weights.** An assignment that is optimal for the LP decodes to a bounded
+choice minimising the total scaled absolute error among all bounded choices of at most `original_k` of the
+given weights with routes; the error columns are tight on every edge of positive scale, and the solver's
+objective *is* the total scaled error of the returned choice. -/
+theorem klae_given_opt_transfer (inp : ErrInput) (ws : List Rat) (originalK : Nat) (a : Asg)
+    (h : BaseWF inp.fi.base) (hac : Acyclic inp.fi.base)
+    (hcons : inp.fi.cfg.constraints = []) (hlen : inp.fi.cfg.lengths = none)
+    (hfint : inp.fi.weightInt = true →
+      (∀ e ∈ inp.basicEdges, IsInt (inp.fi.f e)) ∧ ∀ i, i < inp.k → IsInt (givenW ws i))
+    (hscale : ∀ e ∈ inp.basicEdges, 0 ≤ inp.scale e)
+    (hsat : Sat a (klaeGivenLP inp ws originalK))
+    (hopt : ∀ a', Sat a' (klaeGivenLP inp ws originalK) →
+      evalTerms a (klaeGivenLP inp ws originalK).obj ≤ evalTerms a' (klaeGivenLP inp ws originalK).obj) :
+    ∃ ps : List (List Node),
+      decodePaths inp.st (fun e i => a (edgeVar e i)) inp.k = some ps ∧
+      GivenBounded inp ws originalK (fun i => ps.getD i []) ∧
+      (∀ P', GivenBounded inp ws originalK P' →
+        totalErr inp (fun i => ps.getD i []) (givenW ws) ≤ totalErr inp P' (givenW ws)) ∧
+      (∀ e ∈ inp.basicEdges, 0 < inp.scale e →
+        a (eeVar e) = absErr inp (fun i => ps.getD i []) (givenW ws) e) ∧
+      evalTerms a (klaeGivenLP inp ws originalK).obj
+        = totalErr inp (fun i => ps.getD i []) (givenW ws) :=
+  FP.klae_given_opt_transfer inp ws originalK a h hac hcons hlen hfint hscale hsat hopt
+
+/-- **(d) when the bound `w_max` loses nothing.** If the given numbers are non-negative and *sum to at most
+`w_max`* (e.g. none of the `len(ws)` numbers exceeds the largest flow value) and the flow values lie in
+`[0, w_max]`, every choice is bounded. -/
+theorem klae_given_adequate (inp : ErrInput) (ws : List Rat) (originalK : Nat) (P : Nat → List Node)
+    (h : BaseWF inp.fi.base) (hac : Acyclic inp.fi.base)
+    (hw0 : ∀ i, i < inp.k → 0 ≤ givenW ws i)
+    (hsum : ((List.range inp.k).map (givenW ws)).sum ≤ inp.wmax (some ws))
+    (hf : ∀ e ∈ inp.basicEdges, 0 ≤ inp.fi.f e ∧ inp.fi.f e ≤ inp.wmax (some ws))
+    (hch : GivenChoice inp originalK P) : GivenBounded inp ws originalK P :=
+  FP.klae_given_adequate inp ws originalK P h hac hw0 hsum hf hch
+
+/-- **(c)+(d): under that hypothesis the returned choice is optimal among all choices** of at most
+`original_k` of the given weights (by index) with routes of the user's graph. -/
+theorem klae_given_optimal (inp : ErrInput) (ws : List Rat) (originalK : Nat) (a : Asg)
+    (h : BaseWF inp.fi.base) (hac : Acyclic inp.fi.base)
+    (hcons : inp.fi.cfg.constraints = []) (hlen : inp.fi.cfg.lengths = none)
+    (hfint : inp.fi.weightInt = true →
+      (∀ e ∈ inp.basicEdges, IsInt (inp.fi.f e)) ∧ ∀ i, i < inp.k → IsInt (givenW ws i))
+    (hscale : ∀ e ∈ inp.basicEdges, 0 ≤ inp.scale e)
+    (hw0 : ∀ i, i < inp.k → 0 ≤ givenW ws i)
+    (hsum : ((List.range inp.k).map (givenW ws)).sum ≤ inp.wmax (some ws))
+    (hf : ∀ e ∈ inp.basicEdges, 0 ≤ inp.fi.f e ∧ inp.fi.f e ≤ inp.wmax (some ws))
+    (hsat : Sat a (klaeGivenLP inp ws originalK))
+    (hopt : ∀ a', Sat a' (klaeGivenLP inp ws originalK) →
+      evalTerms a (klaeGivenLP inp ws originalK).obj ≤ evalTerms a' (klaeGivenLP inp ws originalK).obj) :
+    ∃ ps : List (List Node),
+      decodePaths inp.st (fun e i => a (edgeVar e i)) inp.k = some ps ∧
+      usedCount inp.k (fun i => ps.getD i []) ≤ originalK ∧
+      ∀ P' : Nat → List Node,
+        (∀ i, i < inp.k → P' i = [] ∨ ValidRoute inp.fi.base inp.fi.starts inp.fi.ends (P' i)) →
+        usedCount inp.k P' ≤ originalK → inp.fi.cfg.allowEmpty = true →
+        totalErr inp (fun i => ps.getD i []) (givenW ws) ≤ totalErr inp P' (givenW ws) :=
+  FP.klae_given_optimal inp ws originalK a h hac hcons hlen hfint hscale hw0 hsum hf hsat hopt
+
+/-- **what the bound cuts off — the code falsifies optimality when the given weights exceed the flow
+values** (finding C07-given-weights-wmax-cuts-optimum; instance `a → b`, `b → c → c2`, `b → d → d2`,
+`f(a,b) = 0`, `f = 10` elsewhere, `k = 2`, `weight_type = int`, `solution_weights_superset = [12, 12]`,
+hence `w_max = max(2·10, 12) = 20`):
+
+* the LP the constructor builds has optimum `36`: a satisfying assignment with objective `36` exists (one
+  route, weight 12) and *every* satisfying assignment has objective at least `36`;
+* yet the choice using both given weights on the routes `a b c c2` and `a b d d2` — routes of the user's
+  graph, `2 ≤ original_k` layers used — has total absolute error `32`;
+* that choice is not bounded (`|0 − 24| = 24 > w_max`): it is exactly what the bound on the error column
+  of `(a,b)` excludes.
+
+Replayed on the real code by `harness/props/c07.py` (returns error 36, brute force 32). -/
+theorem klae_given_wmax_cuts_optimum :
+    (∃ a : Asg, Sat a (klaeGivenLP GivenExample.inp GivenExample.ws 2) ∧
+      evalTerms a (klaeGivenLP GivenExample.inp GivenExample.ws 2).obj = 36) ∧
+    (∀ a, Sat a (klaeGivenLP GivenExample.inp GivenExample.ws 2) →
+      36 ≤ evalTerms a (klaeGivenLP GivenExample.inp GivenExample.ws 2).obj) ∧
+    (GivenChoice GivenExample.inp 2 GivenExample.P2 ∧
+      ValidRoute GivenExample.inp.fi.base GivenExample.inp.fi.starts GivenExample.inp.fi.ends
+        (GivenExample.P2 0) ∧
+      ValidRoute GivenExample.inp.fi.base GivenExample.inp.fi.starts GivenExample.inp.fi.ends
+        (GivenExample.P2 1) ∧
+      totalErr GivenExample.inp GivenExample.P2 (givenW GivenExample.ws) = 32) ∧
+    ¬ GivenBounded GivenExample.inp GivenExample.ws 2 GivenExample.P2 :=
+  ⟨GivenExample.sat36, GivenExample.lp_lower_bound,
+    ⟨GivenExample.choice2, GivenExample.valid_pc, GivenExample.valid_pd, GivenExample.total2⟩,
+    GivenExample.not_bounded2⟩
+
+/-! ### non-vacuity (given weights) -/
+
+/-- `forGiven` is the constructor's treatment of `solution_weights_superset`: `k = len(ws)` (so `givenW ws i` is
+the `i`-th given number for every layer `i < k`) and empty paths allowed -/
+example (inp : ErrInput) (ws : List Rat) :
+    (inp.forGiven ws).k = ws.length ∧ (inp.forGiven ws).fi.cfg.allowEmpty = true := ⟨rfl, rfl⟩
+
+/-- the instance is what the constructor makes of the user's call (`k = len(ws)`, empty paths allowed) -/
+example : GivenExample.inp = ({ fi := GivenExample.fi0 } : ErrInput).forGiven GivenExample.ws := rfl
+example : GivenExample.inp.k = 2 ∧ GivenExample.inp.fi.cfg.allowEmpty = true := ⟨rfl, rfl⟩
+
+/-- the hypotheses of (b) hold for the one-route choice (layer 0 = `a b c c2`, layer 1 unused), total error 36 -/
+example : LAE.GivenBounded GivenExample.inp GivenExample.ws 2 GivenExample.P1 := GivenExample.bounded1
+example : LAE.totalErr GivenExample.inp GivenExample.P1 (givenW GivenExample.ws) = 36 := GivenExample.total1
+
+/-- a satisfying assignment of the given-weights LP of that instance (21 columns, 26 rows), objective 36:
+the hypotheses of (a) are satisfiable -/
+example : ∃ a, Sat a (klaeGivenLP GivenExample.inp GivenExample.ws 2) ∧
+    evalTerms a (klaeGivenLP GivenExample.inp GivenExample.ws 2).obj = 36 := GivenExample.sat36
+
+/-- (c) applies to a true optimum of the instance (objective `36`, minimal by `lp_lower_bound`) -/
+example : ∃ a, Sat a (klaeGivenLP GivenExample.inp GivenExample.ws 2) ∧
+    ∀ a', Sat a' (klaeGivenLP GivenExample.inp GivenExample.ws 2) →
+      evalTerms a (klaeGivenLP GivenExample.inp GivenExample.ws 2).obj
+        ≤ evalTerms a' (klaeGivenLP GivenExample.inp GivenExample.ws 2).obj := by
+  obtain ⟨a, hsat, hobj⟩ := GivenExample.sat36
+  exact ⟨a, hsat, fun a' h' => by rw [hobj]; exact GivenExample.lp_lower_bound a' h'⟩
+
+/-- the hypotheses of (d) are satisfiable: with the given numbers `[4, 6]` on the same graph
+`Σ ws = 10 ≤ w_max = 20` -/
+example : ((List.range GivenExample.inp.k).map (givenW [4, 6])).sum ≤ GivenExample.inp.wmax (some [4, 6]) := by
+  have h1 : GivenExample.inp.wmax (some [4, 6])
+      = max ((GivenExample.inp.k : Rat) * GivenExample.inp.fmax) (listMax [4, 6]) := rfl
+  have h2 : listMax ([4, 6] : List Rat) = 6 := by decide
+  have h3 : ((GivenExample.inp.k : Nat) : Rat) = 2 := by decide
+  rw [h1, h2, h3, GivenExample.fmax10, GivenExample.range_k, Rat.max_def]
+  show (4 : Rat) + (6 + 0) ≤ _
+  split <;> grind
 
 
 end FP.Props.C07
